@@ -372,6 +372,10 @@ class Poly:
     def _coerce(o):
         if isinstance(o, Poly):
             return o
+        if isinstance(o, float):
+            r = _pi_multiple(o)
+            if r is not None:
+                return Poly.pi() * r
         if isinstance(o, (int, float, complex, Fraction)):
             return Poly.const(o)
         try:
@@ -745,6 +749,27 @@ class Poly:
 
 _ATOMS = {}
 _TRIG = {}   # angle var id -> (cosVar, sinVar, denom)
+
+
+def _pi_multiple(f):
+    """a float that is the 53-bit rounding of (p/q) * pi with small p, q, met while pi is kept symbolic: the value a module-level constant such as `PERIOD = 4 * np.pi` or a
+    table entry `-pi / 2` holds after being computed natively at import time. It is read as the exact multiple of pi (floats as reals), so that code using such a constant and
+    code writing the expression inline are the same program for the verifier. Returns the Fraction p/q or None."""
+    try:
+        from .sym import have_ctx, current
+        if not (have_ctx() and current().symbolic and current().sym_pi):
+            return None
+    except Exception:
+        return None
+    if f == 0.0 or f != f or abs(f) > 64 * math.pi or abs(f) < math.pi / 64:
+        return None
+    r = f / math.pi
+    for q in (1, 2, 3, 4, 6, 8, 12, 16, 32):
+        pnum = round(r * q)
+        if pnum != 0 and abs(pnum) <= 64 * q and abs(r * q - pnum) < 4e-15 * max(1.0, abs(r * q)):
+            if float(Fraction(pnum, q)) * math.pi == f or abs(float(Fraction(pnum, q)) * math.pi - f) <= 4 * abs(f) * 2.3e-16:
+                return Fraction(pnum, q)
+    return None
 
 
 class Unsupported(Exception):
